@@ -634,9 +634,6 @@ def mon_no_panic_returns(ctx, conn):
         if f[2] == "stallcut" and ("served=false" in out or "looped=false" in out):
             # a peer that stopped reading, went on sending and then disconnected
             viol(ctx, conn, "serveconn-did-not-return-after-stalled-peer-left", dict(out=out))
-        if f[2] == "racecut" and ("served=false" in out or "looped=false" in out):
-            # after a GOAWAY that raced new requests the peer committed an offence and left
-            viol(ctx, conn, "serveconn-did-not-return-after-raced-goaway", dict(out=out))
         if f[2] == "end" and out.startswith("ok returned left-behind"):
             viol(ctx, conn, "goroutines-left-behind-after-serveconn-returned", dict(out=out))
         elif f[2] == "end" and out != "ok returned":
@@ -957,15 +954,8 @@ def mon_recv_credit_soft(ctx, conn):
     pass
 
 
-def mon_raced_goaway_returns(ctx, conn):
-    """after the idle timer's GOAWAY raced new requests, the peer commits an offence and leaves: the connection still closes"""
-    for op, out in conn.steps:
-        if op.split(" ")[2] == "racecut" and ("served=false" in out or "looped=false" in out):
-            viol(ctx, conn, "serveconn-did-not-return-after-raced-goaway", dict(out=out))
-
-
 def run_c10(ctx):
-    return run_family(ctx, ["srv-goaway", "srv-acct"], [lambda c, k: mon_goaway(c, k) and None, mon_conn_offence, mon_prompt_close_unmarked, mon_raced_goaway_returns],
+    return run_family(ctx, ["srv-goaway", "srv-acct"], [lambda c, k: mon_goaway(c, k) and None, mon_conn_offence, mon_prompt_close_unmarked],
                       "srv-goaway: one of 21 connection-scoped offences (frame size, CONTINUATION sequencing, even/lower stream id, SETTINGS values, flow-control, compression, frames on idle streams, idle timeout, a trailer section without END_STREAM that goes on in CONTINUATION or cannot be decoded) after 0-3 requests (some still running) with trailing requests/pings.")
 
 
@@ -982,8 +972,8 @@ def run_c14(ctx):
 
 
 def run_c17(ctx):
-    return run_family(ctx, ["srv-soup", "srv-acct", "srv-limits", "srv-goaway"], [mon_no_panic_returns],
-                      "srv-goaway: connection offences among running requests, and the idle timer's GOAWAY racing new requests followed by an offence and a disconnect (ServeConn must return); srv-soup: every 3rd (thorough: every) truncation offset of a recorded well-formed client byte stream followed by EOF; structure-aware mutations (frame delete/duplicate/insert, header or payload bit flip); random frame soups; each ends with EOF and ServeConn must return.")
+    return run_family(ctx, ["srv-soup", "srv-acct", "srv-limits"], [mon_no_panic_returns],
+                      "srv-soup: every 3rd (thorough: every) truncation offset of a recorded well-formed client byte stream followed by EOF; structure-aware mutations (frame delete/duplicate/insert, header or payload bit flip); random frame soups; each ends with EOF and ServeConn must return.")
 
 
 def run_c18(ctx):
